@@ -39,6 +39,7 @@ type Beh struct {
 	Callers []string `json:"callers"`
 	Atomic  bool     `json:"atomic_peers"` // model variant without the gEmpty position (not replayable on this code)
 	Expect  string   `json:"expect"`       // witness: the property the model says fails in this behaviour
+	Fixed   bool     `json:"fixed"`        // ... of the model variant WITHOUT a fix: the real code is expected not to follow
 	Steps   []Step   `json:"steps"`
 }
 
@@ -115,6 +116,7 @@ type run struct {
 	rounds, finds int
 	dlUnconfirmed bool
 	callers       map[string]*caller
+	all           []*caller // every caller ever started in this run (CReset forgets them in callers)
 	lastAdd       *bool  // result of the last direct Add
 	contact       string // peer a worker has just been in contact with (dial returned / found connected)
 	fullAt        map[string]bool // peers delivered while the real set was at (or above) its limit
@@ -125,7 +127,7 @@ func newRun(rep *vh.Report, b *Beh) (*run, error) {
 	if b.Mode == "api" {
 		r.set = discovery.VerifNewSet(uint(b.Limit))
 		discovery.VerifSetHook(r.e.hook(r.set.Raw()))
-		r.stop = func() { r.e.closeAll(); discovery.VerifSetHook(nil) }
+		r.stop = func() { r.e.closeAll(); r.joinCallers(); discovery.VerifSetHook(nil) }
 		return r, nil
 	}
 	h := newFakeHost(r.e)
@@ -143,14 +145,27 @@ func newRun(rep *vh.Report, b *Beh) (*run, error) {
 	}
 	r.stop = func() {
 		r.e.closeAll()
-		for _, c := range r.callers {
-			c.cancel()
-		}
+		r.joinCallers()
 		_ = d.Stop(context.Background())
 		r.e.closeFind()
 		discovery.VerifSetHook(nil)
 	}
 	return r, nil
+}
+
+// joinCallers ends every Peers(ctx) call of this run: a goroutine left in the select of limitedSet.Peers would be
+// counted by parkedInPeers in the next run.
+func (r *run) joinCallers() {
+	for _, c := range r.all {
+		c.cancel()
+	}
+	for _, c := range r.all {
+		select {
+		case <-c.done:
+		case <-time.After(settleD):
+			r.rep.Inconclusivef("a Peers(ctx) call of behaviour %s did not return after its context was cancelled", r.b.ID)
+		}
+	}
 }
 
 func names(e *env, ids []peer.ID) []string {
@@ -504,6 +519,7 @@ func (r *run) do(a map[string]any) error {
 		ctx, cancel := context.WithCancel(context.Background())
 		cl := &caller{name: c, cancel: cancel, done: make(chan struct{}), released: r.b.Atomic}
 		r.callers[c] = cl
+		r.all = append(r.all, cl)
 		e.mu.Lock()
 		e.curCall = c
 		e.mu.Unlock()
@@ -780,6 +796,9 @@ func TestDriver(t *testing.T) {
 			continue
 		}
 		res := replay(rep, b)
+		if b.Fixed {
+			res.drift = "" // (verdict recorded below) not following the tree before the fix is the expected outcome
+		}
 		if res.drift != "" || res.viol > 0 {
 			failed++
 		}
